@@ -353,6 +353,115 @@ func (d *c19DB) runCase(cs c19Case) (problem string, nontrivial bool, desc strin
 	return "", nontrivial, desc
 }
 
+// c19ProcessEnd: the importer as a process. main() opens the database (with or without log fsync), imports, and
+// exits without closing anything; the rows it acknowledged are read by a later process. Here: OpenRelation the way
+// main does, doBatchInsert, then every descriptor is dropped without a flush or a close call (process exit), the
+// start-up recovery runs, and a new session reads the table. No flush timer fires in between (manual clock), so the
+// acknowledged rows live in the log only.
+func c19ProcessEnd(rep *lib.Report) {
+	for _, fsync := range []bool{true, false} {
+		for _, nrec := range []int{1, 2, 3, 40, 300} {
+			desc := fmt.Sprintf("import of %d records with log fsync %v, process ends without closing the database, next process reads the table", nrec, fsync)
+			problem := func() (problem string) {
+				defer func() {
+					if x := recover(); x != nil {
+						if he, ok := x.(lib.HarnessError); ok {
+							panic(he)
+						}
+						problem = fmt.Sprintf("panic: %v", x)
+					}
+				}()
+				d := c19NewDB()
+				defer d.destroy()
+				if err := d.sess.ExecQuery("CREATE TABLE imp (c0 int, c1 varchar(255))"); err != nil {
+					panic(lib.HarnessError{Msg: "CREATE TABLE: " + err.Error()})
+				}
+				rs0 := d.sess.RelationService
+				if err := d.sess.Close(); err != nil {
+					panic(lib.HarnessError{Msg: "Session.Close: " + err.Error()})
+				}
+				storage.VerifMarkClosed(rs0)
+				rm, err := storage.OpenRelation("d", fsync)
+				if err != nil {
+					return "OpenRelation: " + err.Error()
+				}
+				types, err := colDataTypes(rm, "imp", []string{"c0", "c1"})
+				if err != nil {
+					return "colDataTypes: " + err.Error()
+				}
+				cfg := importCfg{colTypes: types, db: "d", dstCols: []string{"c0", "c1"}, separator: ',', srcCols: []int{0, 1}, table: "imp"}
+				var sb strings.Builder
+				var want []string
+				for i := 0; i < nrec; i++ {
+					if i%7 == 5 {
+						sb.WriteString("notanumber,x\n") // a record that is reported as an error
+						continue
+					}
+					fmt.Fprintf(&sb, "%d,v%d\n", i, i)
+					want = append(want, fmt.Sprintf("%d|v%d", i, i))
+				}
+				chOk, chErr := doBatchInsert(rm, cfg, strings.NewReader(sb.String()))
+				acks, errs := 0, 0
+				for chOk != nil || chErr != nil {
+					select {
+					case _, ok := <-chOk:
+						if ok {
+							acks++
+						} else {
+							chOk = nil
+						}
+					case _, ok := <-chErr:
+						if ok {
+							errs++
+						} else {
+							chErr = nil
+						}
+					}
+				}
+				if acks != len(want) {
+					return fmt.Sprintf("%d records acknowledged, %d are acceptable", acks, len(want))
+				}
+				// the process ends
+				storage.VerifAbandon(rm)
+				storage.VerifForgetStores()
+				// the next process
+				if err := storage.InitStorage(); err != nil {
+					return "start-up recovery in the next process: " + err.Error()
+				}
+				storage.VerifForgetStores()
+				d.sess = &engine.Session{}
+				if err := d.sess.ExecQuery("USE d"); err != nil {
+					return "USE d in the next process: " + err.Error()
+				}
+				rows, _, err := engine.EvaluateSelect(parseSelectAll("imp"), d.sess.RelationService)
+				if err != nil {
+					return "SELECT in the next process: " + err.Error()
+				}
+				var got []string
+				for _, r := range rows {
+					got = append(got, fmt.Sprintf("%v|%v", r.Vals[0], r.Vals[1]))
+				}
+				if strings.Join(got, ",") != strings.Join(want, ",") {
+					return fmt.Sprintf("%d records were acknowledged; the next process finds %d rows (%s ...)", acks, len(got), clipStr(strings.Join(got, ","), 120))
+				}
+				return ""
+			}()
+			rep.AddCase(true, lib.HashString(desc), lib.HashString(problem))
+			if problem != "" {
+				rep.AddFailure(&lib.Failure{Kind: "csv-import", Detail: "[process-end] " + desc + ": " + problem, Trace: []string{"process-end", desc}})
+			}
+		}
+	}
+	rep.Bounds["process end"] = "imports of 1, 2, 3, 40, 300 records with and without log fsync; the importer exits without closing the database (as main does), the next process recovers and reads the table"
+}
+
+func clipStr(s string, n int) string {
+	if len(s) > n {
+		return s[:n]
+	}
+	return s
+}
+
 func runC19(env *lib.Env, rep *lib.Report) {
 	typesAll := []string{"int", "bigint", "varchar", "boolean"}
 	var schemas [][]string
@@ -584,6 +693,9 @@ func runC19(env *lib.Env, rep *lib.Report) {
 	}
 	if db != nil {
 		db.destroy()
+	}
+	if env.Shard == 0 && env.Replay == "" {
+		c19ProcessEnd(rep)
 	}
 	rep.Bounds["imports enumerated (all shards)"] = n
 }
